@@ -7,6 +7,7 @@ import (
 	"go/token"
 	"go/types"
 	"os"
+	"runtime/debug"
 	"sort"
 	"strings"
 	"sync"
@@ -126,6 +127,7 @@ func (p *Program) Explore(cfg ExploreConfig) (*Explorer, error) {
 	if entry == nil {
 		return nil, fmt.Errorf("function %s.%s not found", cfg.PkgPath, cfg.Entry)
 	}
+	debug.SetGCPercent(400)
 	ex := &Explorer{Bounds: cfg.Bounds, Workers: cfg.Workers, Solver: cfg.Solver, Known: cfg.Known, MaxViol: cfg.MaxViol, Verbose: cfg.Verbose}
 	if ex.Workers <= 0 {
 		ex.Workers = 8
@@ -193,12 +195,13 @@ func (p *Program) Explore(cfg ExploreConfig) (*Explorer, error) {
 				solver.log = f
 			}
 			defer solver.Close()
+			wi := p.newInterp(ex, initOK)
 			for {
 				it, ok := ex.pop()
 				if !ok {
 					break
 				}
-				p.runPath(ex, solver, entry, order, initOK, it, cfg)
+				p.runPath(wi, ex, solver, entry, order, it, cfg)
 				ex.done()
 			}
 			ex.mu.Lock()
@@ -269,13 +272,12 @@ func (i *interpreter) resetGlobals() {
 	}
 }
 
-func (p *Program) runPath(ex *Explorer, solver *Solver, entry *ssa.Function, order []*ssa.Package, initOK map[string]bool, it workItem, cfg ExploreConfig) {
+func (p *Program) runPath(i *interpreter, ex *Explorer, solver *Solver, entry *ssa.Function, order []*ssa.Package, it workItem, cfg ExploreConfig) {
 	solver.NewPath()
 	ctx := &pathCtx{ex: ex, solver: solver, prefix: it.prefix, nameCnt: map[string]int{}, reach: map[string]bool{}, knownAct: map[string]*Term{}, assumes: map[string]bool{}, held: map[heldKey]int{}}
 	if it.model != nil {
 		ctx.setModel(it.model)
 	}
-	i := p.newInterp(ex, initOK)
 	if cfg.Trace {
 		i.mode |= EnableTracing
 	}
